@@ -162,10 +162,21 @@ def _run_shard(args):
     sys.stdout = _Sink()
     try:
         return func(shard)
-    except BaseException as e:  # a harness crash must be loud, never silent
+    except BaseException as e:  # a crash must be loud, never silent
         import traceback
         a = Acc()
-        a.extra["harness_errors"] = ["%s on shard %r\n%s" % (e, shard, traceback.format_exc())]
+        tb = traceback.extract_tb(e.__traceback__)
+        lib = [f for f in tb if os.path.realpath(f.filename).startswith(os.path.realpath(REPO) + os.sep)]
+        if lib and not isinstance(e, (KeyboardInterrupt, SystemExit, MemoryError)):
+            # the exception came out of the library under test through a harness path that did not expect one:
+            # that is a violation of whatever the shard was checking (kept coarse: the shard is the replay unit)
+            f = lib[-1]
+            a.viol("unexpected-exception:%s" % f.name,
+                   "%s: %s raised inside %s (%s:%d) while exploring shard %s" % (
+                       type(e).__name__, e, f.name, os.path.basename(f.filename), f.lineno, repr(shard)[:200]),
+                   {"kind": "shard", "shard": repr(shard)[:2000], "traceback": traceback.format_exc()[-1500:]})
+        else:
+            a.extra["harness_errors"] = ["%s on shard %r\n%s" % (e, shard, traceback.format_exc())]
         return a
 
 
@@ -299,7 +310,7 @@ def finish(prop, tier, seed, acc, t0, rule, bounds, exhaustive=True, assumptions
         vac.append("no states/transitions explored")
     if len(acc.outcomes) < min_outcomes:
         vac.append("only %d distinct outcomes observed" % len(acc.outcomes))
-    if vac and rc == 0:
+    if vac and rc == 0 and not acc.nviol:
         sys.stderr.write("HARNESS ERROR (vacuous exploration): %s\n" % "; ".join(vac))
         rc = 2
     extra = {k: (sorted(v, key=repr)[:40] if isinstance(v, (set, frozenset)) else v) for k, v in acc.extra.items()}
